@@ -92,6 +92,11 @@ CHECKS = {
         "grammar/constraint, 2 for missing pieces, never an uncaught exception; `isla parse` output accepted by `isla check`.",
    note="Trusted: contract transcription + checks/refsem.py. [decoder]. Outside: solve/fuzz/repair/mutate/create commands, argparse, file-system errors.",
    design="§3 C19"),
+ "C17": dict(level="other", technique="CrossHair (z3): solver-driven exhaustive enumeration of bounded trees and string literals; every bounded sequence of serialisations/cache computations; z3 decides semantic equality of restored formulas",
+   text=BOUNDED + "Trees decodable from <= 4/6 choices (ids bottom-up and top-down) x every sequence of <= 2/3 operations (to_json, pickle, k_paths, hashes, str, from_json): the original is unchanged, JSON/pickle decoding in a fresh-interpreter "
+        "id state gives the same structure/ids/string and keeps the id counter above the decoded ids, the CLI JSON reads back. SMT formulas with every literal of <= 2/3 characters over 15 escape-relevant characters survive pickling.",
+   note="Trusted: reference traversal; next_id reset simulates a fresh interpreter. [decoder]. Outside: literals that ISLa's text parser rejects, larger inputs.",
+   design="§3 C17"),
 }
 NOT_APPLICABLE = {
  "C21": "needs end-to-end solve() on the shipped formalizations plus external validators (docutils, XML parser): the solver loop is a heap algorithm around Z3 calls that no engine here can encode, and the validators are not solver objects",
